@@ -41,6 +41,7 @@ def evalTwoCalls (ins outs : List String) : Verdict :=
     let expected := List.range' (fromH + 1) (to - (fromH + 1))
     if err == "CRASH" then .prop "c05_no_crash" "twocalls" else
     if err != "nil" then .prop "c18_complete" s!"second call: res={res} err={err}" else
+    if (kvNat? outs "blocked").any (· != 0) then .prop "c18_complete" s!"an honest peer that only timed out once was blocked by the client ({(kvNat? outs "blocked").getD 0} blocked): it is lost for every later call" else
     if natList? res == some expected then .ok "twocalls" else .prop "c05_exact_heights" s!"res={res}"
   | _, _, _, _ => .bad "twocalls fields"
 
